@@ -117,6 +117,36 @@ template <int DIM, int ORDER> static void ppoly_part(Ctx &c, const std::string &
   }
 }
 
+// PPolyND request histories: ALL sequences of length <= depth over the request alphabet (breakpoint count, coefficient count, row count)
+// on one object; after every request the verdict must be the one the request alone deserves (seeded change C16-m6: a fast path of
+// update() that skips validation when the new request has the breakpoint and row counts of the stored state).
+template <int DIM, int ORDER> static void ppoly_histories(Ctx &c, const std::string &unit, int depth) {
+  typedef PPolyND<DIM, ORDER> PP; typedef typename PP::MatrixType Mat;
+  struct Req { int nb, nc; long rows; bool want; };
+  std::vector<Req> reqs;
+  const int ncs[5] = {0, 1, 2, 4, ORDER == Eigen::Dynamic ? 13 : ORDER + 1};
+  for (int nb : {0, 1, 2, 3, 5}) for (int nc : ncs) { if (ORDER == Eigen::Dynamic && nc == 0) continue;
+    const int nseg = nb >= 2 ? nb - 1 : 0; std::set<long> rs = {(long)nseg * nc - 1, (long)nseg * nc, (long)nseg * nc + 1, (long)nseg, 2L * nseg, 4L * nseg};
+    for (long r : rs) if (r >= 0) reqs.push_back({nb, nc, r, nb >= 2 && r == (long)nseg * nc && (ORDER == Eigen::Dynamic ? nc >= 1 : (nc >= 1 && nc <= ORDER))}); }
+  const long R = (long)reqs.size(); long total = 0; for (int len = 1; len <= depth; ++len) { long n = 1; for (int i = 0; i < len; ++i) n *= R; total += n; }
+  for (int len = 1; len <= depth; ++len) { long n = 1; for (int i = 0; i < len; ++i) n *= R;
+    for (long q = 0; q < n; ++q) { PP p; long qq = q; std::string hist;
+      for (int step = 0; step < len; ++step) { const Req &r = reqs[qq % R]; qq /= R;
+        std::vector<double> b; for (int i = 0; i < r.nb; ++i) b.push_back(-1.0 + 0.75 * i + 0.125 * step);
+        Mat C = Mat::Constant(r.rows, DIM, 0.5 + step);
+        if (step == 0 && (q & 1)) p = PP(b, C, r.nc); else p.update(b, C, r.nc);
+        hist += fmt("%s(bp=%d,nc=%d,rows=%ld)", step ? " ; " : "", r.nb, r.nc, r.rows);
+        ++c.st.comparisons; const int nseg = r.nb >= 2 ? r.nb - 1 : 0;
+        if (p.isInitialized() != r.want || p.getNumSegments() != (r.want ? nseg : 0) || (r.want && p.getNumCoeffs() != r.nc)) {
+          c.st.violate(unit, fmt("PPolyND<%d,%d>: after requests [%s] on one object: isInitialized() = %d, %d segments, %d coefficients; the last request alone deserves %s", DIM, ORDER, hist.c_str(), (int)p.isInitialized(), p.getNumSegments(), p.getNumCoeffs(), r.want ? "acceptance" : "rejection (uninitialised, no segments)"), {{"what", "ppoly-history"}}); return; }
+        const int ns = p.getNumSegments();
+        for (int i : {-1, 0, ns - 1, ns}) { bool threw = false; try { (void)p.at(i); } catch (const std::out_of_range &) { threw = true; } if (threw != (i < 0 || i >= ns)) { c.st.violate(unit, fmt("PPolyND<%d,%d>: after requests [%s]: at(%d) with %d segments %s", DIM, ORDER, hist.c_str(), i, ns, threw ? "threw" : "did not throw"), {{"what", "ppoly-history"}}); return; } }
+        if (r.want) { auto v = p.evaluate(b[0] + 0.25, 0); double geo = 0; for (int k = r.nc - 1; k >= 0; --k) geo = geo * 0.25 + 1.0; /* all-equal coefficients at local time 1/4: exact in double */ if (v(0) != (0.5 + step) * geo) { c.st.violate(unit, fmt("PPolyND<%d,%d>: after requests [%s]: evaluation does not reflect the accepted data", DIM, ORDER, hist.c_str()), {{"what", "ppoly-history"}}); return; } (void)p.evaluate(b[0] + 0.25, 1); }
+      }
+    } }
+  c.st.cls(fmt("ppoly request histories to depth %d", depth)); c.st.notes[fmt("ppoly_histories<%d,%d>", DIM, ORDER)] = fmt("%ld requests, %ld sequences of length <= %d, all executed", R, total, depth);
+}
+
 template <int S, int D> static void explore(Ctx &c, long &id) {
   for (int N = 1; N <= 3; ++N) { long my = id++; if (!c.mine(my)) continue; std::string unit = str(my); if (!c.begin(unit)) continue; Run<S, D> r(c, unit); r.single_and_pairs(N); ++c.st.evaluations; if (!c.st.seen(fmt("sp/%d/%d/%d", S, D, N))) ++c.st.nontrivial;
     c.st.sample(fmt("unit %s: %s D=%d N=%d: every scalar input field x {NaN,+inf,-inf}, 7 duration values around 1 ms, 7 size/ordering faults, all pairs of faults, both overloads: return value = isValid = bool = model, message present iff invalid, checkValidity agrees", unit.c_str(), order_name(S), D, N), 4); }
@@ -129,6 +159,11 @@ int main(int argc, char **argv) {
   return supervise(a, [&](Ctx &c) {
     long id = 0;
     explore<2, 1>(c, id); explore<3, 1>(c, id); explore<4, 1>(c, id); explore<2, 2>(c, id); explore<3, 2>(c, id); explore<4, 2>(c, id);
+    { const int depth = c.args.thorough() ? 3 : 2;
+      for (int inst = 0; inst < 5; ++inst) { long my = id++; if (!c.mine(my)) continue; std::string unit = str(my); if (!c.begin(unit)) continue;
+        switch (inst) { case 0: ppoly_histories<1, Eigen::Dynamic>(c, unit, depth); break; case 1: ppoly_histories<2, Eigen::Dynamic>(c, unit, depth); break; case 2: ppoly_histories<2, 4>(c, unit, depth); break; case 3: ppoly_histories<3, 8>(c, unit, depth); break; default: ppoly_histories<1, 12>(c, unit, depth); }
+        ++c.st.evaluations; if (!c.st.seen(fmt("ppolyhist/%d", inst))) ++c.st.nontrivial;
+        c.st.sample(fmt("unit %s: PPolyND instantiation %d: every sequence of <= %d construct/update requests over {0,1,2,3,5 breakpoints} x {0,1,2,4,ORDER+1 coefficients} x {matching, off-by-one and other-coefficient-count row counts}: verdict, segment count, coefficient count and at() bounds after every request", unit.c_str(), inst, depth), 9); } }
     { long my = id++; if (c.mine(my)) { std::string unit = str(my); if (c.begin(unit)) { ppoly_part<1, Eigen::Dynamic>(c, unit); ppoly_part<2, Eigen::Dynamic>(c, unit); ppoly_part<2, 4>(c, unit); ppoly_part<3, 8>(c, unit); ppoly_part<1, 12>(c, unit); ++c.st.evaluations; c.st.seen("ppoly"); ++c.st.nontrivial;
       c.st.sample("PPolyND: breakpoint counts {0,1,2,5} x coefficient counts {0,1,4,ORDER+1} x row count off by {-1,0,+1} x {constructor, update after a valid state}: isInitialized / getNumSegments; at(i) for i in {INT_MIN,-2,-1,0..n-1,n,n+1,INT_MAX}", 8); } } }
   });
